@@ -171,6 +171,7 @@ func enumHistories(depth, shard, shards int, fn func(ops []Op) bool) {
 		for _, v := range enumSetterValues[w] {
 			steps = append(steps, sv{w, v})
 		}
+		steps = append(steps, sv{w, "\x00{cur}"}) // the setter called with its getter's current value
 	}
 	var idx int64
 	ops := make([]Op, depth)
@@ -185,6 +186,9 @@ func enumHistories(depth, shard, shards int, fn func(ops []Op) bool) {
 		}
 		for _, s := range steps {
 			ops[d] = Op{Kind: "set", Setter: s.w, Value: B(s.v)}
+			if s.v == "\x00{cur}" {
+				ops[d] = Op{Kind: "set", Setter: s.w, Cur: true}
+			}
 			if !rec(d + 1) {
 				return false
 			}
